@@ -319,47 +319,65 @@ func TestVerifSession(t *testing.T) {
 	close(ch)
 	wg.Wait()
 
-	// nonces: real Generate, many tokens, several instances
+	// nonces: real Generate, many tokens, several instances, issued concurrently; every issued token must be accepted
 	gen := 0
-	for _, inst := range []string{"i1", "i2"} {
-		fac := sFactory(inst, 1)
-		for i := 0; i < 100000; i++ {
-			st, _, s := fac.Generate("alice", i%2 == 0)
-			if st != http.StatusOK {
-				sViolate("generate:status", fmt.Sprint(st), nil)
-				break
-			}
-			p := strings.SplitN(s, ":", 2)
-			n, err := base64.URLEncoding.DecodeString(p[0])
-			if err != nil || len(p) != 2 {
-				sViolate("generate:format", s, nil)
-				break
-			}
-			sNote(n)
-			gen++
-			if i%20000 == 0 {
-				st, _, u, a := fac.Check(s)
-				if st != http.StatusOK || u != "alice" || a != (i%2 == 0) {
-					sViolate("generate:roundtrip", fmt.Sprintf("%d %q %v", st, u, a), nil)
+	var gwg sync.WaitGroup
+	for g := 0; g < 16; g++ {
+		gwg.Add(1)
+		go func(g int) {
+			defer gwg.Done()
+			fac := sFactory([]string{"i1", "i2"}[g%2], 1)
+			user := fmt.Sprintf("user%d", g)
+			for i := 0; i < 12500; i++ {
+				st, _, s := fac.Generate(user, i%2 == 0)
+				if st != http.StatusOK {
+					sViolate("generate:status", fmt.Sprint(st), nil)
+					return
 				}
-				if st2, _, _, _ := sFactory("i2", 2).Check(s); st2 == http.StatusOK {
-					sViolate("generate:other-instance-accepts", s, nil)
+				p := strings.SplitN(s, ":", 2)
+				n, err := base64.URLEncoding.DecodeString(p[0])
+				if err != nil || len(p) != 2 {
+					sViolate("generate:format", s, nil)
+					return
+				}
+				sNote(n)
+				sMu.Lock()
+				gen++
+				sMu.Unlock()
+				if i%50 == 0 {
+					st, _, u, a := fac.Check(s)
+					if st != http.StatusOK || u != user || a != (i%2 == 0) {
+						sViolate("generate:issued-token-not-accepted-as-issued", fmt.Sprintf("status %d identity (%q,%v), issued for (%q,%v)", st, u, a, user, i%2 == 0), nil)
+					}
+					if st2, _, _, _ := sFactory("i2", 2).Check(s); st2 == http.StatusOK {
+						sViolate("generate:other-instance-accepts", s, nil)
+					}
 				}
 			}
-		}
+		}(g)
 	}
+	gwg.Wait()
 	if sDup > 0 {
 		sViolate("nonce-reused", fmt.Sprintf("%d repeated nonces among %d tokens", sDup, len(sNonces)), nil)
 	}
-	// real expiry by waiting
-	short, _ := NewWebSessionFactory(1 * time.Second)
+	// real expiry by waiting: a token that was presented (and accepted) before must still expire on time.
+	// Token times have a resolution of one second, so "fresh" is probed well inside and "expired" well outside.
+	short, _ := NewWebSessionFactory(2 * time.Second)
 	_, _, tok := short.Generate("alice", true)
-	if st, _, _, _ := short.Check(tok); st != http.StatusOK {
-		sViolate("expiry:fresh-rejected", fmt.Sprint(st), nil)
+	_, _, tok2 := short.Generate("bob", false) // never presented before its expiry
+	issuedAt := time.Now()
+	for _, at := range []time.Duration{0, 500 * time.Millisecond, 950 * time.Millisecond, 3200 * time.Millisecond, 3900 * time.Millisecond} {
+		time.Sleep(time.Until(issuedAt.Add(at)))
+		st, _, _, _ := short.Check(tok)
+		if at < time.Second && st != http.StatusOK {
+			sViolate("expiry:fresh-rejected", fmt.Sprintf("age %v: status %d", at, st), nil)
+		}
+		if at > 3*time.Second && st == http.StatusOK {
+			sViolate("expiry:expired-accepted", fmt.Sprintf("token accepted %v after issue with a 2 s lifetime (it had been presented before)", at), nil)
+		}
 	}
-	time.Sleep(2200 * time.Millisecond)
-	if st, _, _, _ := short.Check(tok); st == http.StatusOK {
-		sViolate("expiry:expired-accepted", "token accepted 2.2 s after issue with a 1 s lifetime", nil)
+	if st, _, _, _ := short.Check(tok2); st == http.StatusOK {
+		sViolate("expiry:expired-accepted-first-presentation", "token accepted 3.9 s after issue with a 2 s lifetime", nil)
 	}
 	var vs []sViolation
 	for _, v := range sViol {
